@@ -323,6 +323,7 @@ type Features struct {
 	InitialSync  bool // the history starts with a full synchronisation
 	CNI          bool // CNI-triggered SyncPodChains / SyncPodIPInIPSet operations
 	NonCanon     bool // ipBlock cidr / except values written with host bits set (10.244.1.3/16), as the API accepts them
+	OffDirection bool // policies naming one direction in policyTypes while the spec also carries rules of the other
 	AddWithIP    bool // pods created during the history reach the informer already carrying their address (as after a relist); otherwise they are created without one and the kubelet reports it in an update
 }
 
@@ -347,6 +348,7 @@ func genFeatures(c *core.Choices) Features {
 		CNI:          c.Prob(1, 3),
 		NonCanon:     c.Prob(1, 3),
 		AddWithIP:    c.Prob(1, 5),
+		OffDirection: c.Prob(1, 3),
 	}
 }
 
@@ -565,9 +567,12 @@ func (g *Gen) rules(cl *Cluster, max int) []PRule {
 	return out
 }
 
-// policySpec fills everything but the identity. Shapes that the API accepts but that are outside the scope of
-// C15/C16 are not produced: rules of a direction that spec.policyTypes switches off (they make
-// SyncPodIPInIPSet dereference a nil rule set - a C18 matter), named ports, ports without a number, SCTP.
+// policySpec fills everything but the identity. spec.policyTypes governs which directions are in force; when it is
+// empty the API defaults to Ingress always and Egress iff egress rules are present. All combinations occur:
+// empty policyTypes with ingress rules only / egress rules only / both / none, [Ingress], [Egress], both types
+// with either section empty, and - under the OffDirection flag - a single named type while the spec also carries
+// rules of the OTHER direction, which the API stores and ignores (a manifest where someone wrote an egress section
+// and forgot the type). Not produced (outside the quantifier of C15/C16): named ports, ports without a number, SCTP.
 func (g *Gen) policySpec(cl *Cluster, p *Policy) {
 	p.PodSel = g.sel(podLabelKV)
 	p.Types, p.Ingress, p.Egress = nil, nil, nil
@@ -591,6 +596,14 @@ func (g *Gen) policySpec(cl *Cluster, p *Policy) {
 		p.Types = []string{"Ingress", "Egress"}
 		p.Ingress = g.rules(cl, 2)
 		p.Egress = g.rules(cl, 2)
+	}
+	if g.F.OffDirection && g.C.Prob(1, 2) {
+		switch kind {
+		case 1:
+			p.Egress = g.rules(cl, 2) // ignored by the API: Egress is not in policyTypes
+		case 2:
+			p.Ingress = g.rules(cl, 2) // ignored by the API: Ingress is not in policyTypes
+		}
 	}
 }
 
